@@ -1,80 +1,19 @@
 #!/usr/bin/env python3
-"""C01 micro-step investigation (not part of ./check): searches the micro-step model Feb/Micro.v exhaustively for schedules
-of two API calls on one word that no order of the two atomic cell operations explains, and replays each of them on the real
-feb.c (harness/c/c01_micro.c: the first mover is held right after its first qt_hash_unlock, the other call runs, the first
-mover is released).  usage: tools/c01_micro_probe.py [repo]"""
-import os, re, sys
+"""C01 micro-step probe, stand-alone (the same tier runs inside ./check C01): replays the held schedules of the micro-step model
+Feb/Micro.v on the real feb.c (harness/c/c01_micro.c) and prints every outcome.  usage: tools/c01_micro_probe.py [repo] [--all]"""
+import os, sys
 sys.path.insert(0, os.path.join(os.path.dirname(os.path.dirname(os.path.abspath(__file__))), "lib"))
-if len(sys.argv) > 1:
-    os.environ["VERIF_REPO"] = sys.argv[1]
+args = [a for a in sys.argv[1:] if not a.startswith("-")]
+if args:
+    os.environ["VERIF_REPO"] = args[0]
 from verif import core
 from verif.props import _feb_common as fc
 
-
-def explain(opa, va, opb, vb, out):
-    """is (resA, resB, full, word) the result of the two atomic operations in some order (initial cell full, 5)?"""
-    def app(c, name, v):
-        kind, src, dm, nb = fc.canon(name, 0, v)
-        r = fc.atomic(c, kind, src)
-        if r is None:
-            return (c, (fc.OPFAIL, None)) if nb else None
-        c1, got = r
-        return c1, (0, fc.expect_val(kind, 0 if kind in ("readFE", "readFF", "readXX") else 1, got))
-
-    def seq(first, second):
-        c = (1, 5)
-        r1 = app(c, *first)
-        if r1 is not None:
-            c1, x = r1
-            r2 = app(c1, *second)
-            return (x, r2[1], r2[0]) if r2 else (x, None, c1)
-        r2 = app(c, *second)
-        if r2 is None:
-            return (None, None, c)
-        c1, y = r2
-        r1 = app(c1, *first)
-        return (r1[1], y, r1[0]) if r1 else (None, y, c1)
-    a, b = (opa, va), (opb, vb)
-    x = seq(a, b)
-    y = seq(b, a)
-    cands = [(x[0], x[1], x[2]), (y[1], y[0], y[2])]
-    return out in cands, cands
-
-
-def main():
-    ctx = core.Ctx("C01", "quick", 1)
-    try:
-        drv = ctx.model_driver("c01micro_driver")
-        rc, out, err = core.sh([drv], timeout=300)
-        bad = [l for l in out.splitlines() if l.startswith("BAD")]
-        print(out.splitlines()[-1])
-        exe = ctx.link("c01_micro", ["c01_micro.c"], exclude=["feb.c"])
-        lines, meta = [], []
-        for l in bad:
-            m = re.match(r"BAD init=(\w+) A=(\w+) B=(\w+) .*schedule=(\d+) outcome: A=(\S+) B=(\S+) full=(\w+) word=(\d+)", l)
-            init, a, b, sched, ra, rb, full, word = m.groups()
-            if init != "absent":
-                continue
-            first = sched[0]
-            # the first mover is held after its first qt_hash_unlock; harness task "A" is the held one
-            if first == "0":
-                lines.append("m %s 11 1 %s 22" % (a, b)); meta.append((a, 11, b, 22, False, l))
-            else:
-                lines.append("m %s 22 1 %s 11" % (b, a)); meta.append((b, 22, a, 11, True, l))
-        rc, o, e = core.run_lines(exe, lines, timeout=120, env=core.qenv(3, 1, stack=65536))
-        res = [x for x in o if x.startswith("A=")]
-        nbad = 0
-        for (held, vh, other, vo, swapped, l), r in zip(meta, res):
-            m = re.match(r"A=(\S+):(\S+) B=(\S+):(\S+) status=(\d) word=(-?\d+) paused=(\d)", r)
-            def rr(c, v):
-                return None if c == "BLK" else (int(c), None if v == "-" else int(v))
-            outc = (rr(m.group(1), m.group(2)), rr(m.group(3), m.group(4)), (int(m.group(5)), int(m.group(6))))
-            ok, cands = explain(held, vh, other, vo, outc)
-            nbad += (not ok)
-            print("%-11s held after its lookup | %-11s runs | real code: %s | %s" % (held, other, r, "linearisable" if ok else "NOT explained by any order; orders give %s" % (cands,)))
-        print("# %d model schedules replayed on the real code, %d non-linearisable outcomes reproduced" % (len(res), nbad))
-    finally:
-        ctx.cleanup()
-
-
-main()
+ctx = core.Ctx("C01", "quick", 1)
+try:
+    fc.run_micro(ctx, "--all" not in sys.argv, verbose=True)
+    print("#", ctx.cov["micro"])
+    for v in ctx.violations:
+        print("# VIOLATION:", v[1])
+finally:
+    ctx.cleanup()
